@@ -386,16 +386,38 @@ def _rv_leaves(fn, rv, depth=14):
     return {str(k)}
 
 
+_CONST_LEAF = re.compile(r'^(k.*|[A-Z][A-Z0-9_]*|[A-Za-z0-9_]+::[A-Za-z0-9_]+|as:\w+)$')
+
+
+def _result_locals(fn):
+    """the return place and the multi-definition locals that are moved into it (`let r = if c { 4 } else { 8 }; r`)"""
+    res = {0}
+    for b in fn.reach:
+        for st in fn.blocks[b][0]:
+            if st[0] == 'a' and st[1] == [0] and st[2][0] == 'use' and st[2][1][0] in ('c', 'm') and len(st[2][1][1]) == 1:
+                l = st[2][1][1][0]
+                if l > fn.argc and len(fn.defs.get(l, [])) != 1:
+                    res.add(l)
+    return res
+
+
 def events(fn, summ):
-    """(block, label) for every call / *self store / explicit error value of the body"""
+    """(block, label) for every call / *self store / explicit error value / constant result of the body"""
     g = fn.facts
     out = []
+    results = _result_locals(fn)
     for b in sorted(fn.reach):
         stmts, t = fn.blocks[b]
         for st in stmts:
             if st[0] != 'a':
                 continue
             pl, rv = st[1], st[2]
+            if len(pl) == 1 and pl[0] in results:
+                # a *selector*: which constant the function answers under which condition (`Format::word_size`, `is_cie`,
+                # `allow_section_offset`, `is_valid_encoding`): the set of returned constants alone does not say which arm gives which
+                ls = _rv_leaves(fn, rv)
+                if ls and all(_CONST_LEAF.match(x) for x in ls):
+                    out.append((b, 'r:' + _fmt(ls)))
             if len(pl) > 1:
                 base, names = summ.root_of(fn, pl)
                 if base == 1 and names:
